@@ -545,6 +545,7 @@ class HistogramND(HistogramBase):
             binnings=binnings,
             frequencies=frequencies,
             errors2=errors2,
+            missed=missing,
             **kwargs,
         )
 
